@@ -184,12 +184,87 @@ def corrupt(rng, spec, doc, t):
     return None
 
 
+def directed_hook_failures(ctx):
+    """a fixed grid: savorize hooks that refuse (SeasoningError, another exception), constructors that
+    refuse, at the root, in a list, in an attribute, as a dict key / value"""
+    yaml, yatiml = L.setup()
+    rng = ctx.rng
+    S = G.S
+    P = lambda nm, t, **kw: dict(name=nm, type=t, **kw)   # noqa: E731
+    for hook in (('fail',), ('other',)):
+        for kind in ('plain', 'userstring', 'str'):
+            if kind == 'plain':
+                ps = [P('a', ('int',))]
+                inner = dict(name='Inner', bases=[], registered=True, kind='plain', params=ps, all_params=ps,
+                             extra=False, abstract=None, define_init=True, savorize=[hook])
+                good = ('m', [(S('a'), S('1'))], None)
+            else:
+                inner = dict(name='Inner', bases=[], registered=True, kind=kind, savorize=[hook])
+                good = S('word')
+            hp = [P('x', ('cls', 'Inner')), P('n', ('int',), default=0)]
+            holder = dict(name='Holder', bases=[], registered=True, kind='plain', params=hp, all_params=hp,
+                          extra=False, abstract=None, define_init=True)
+            shapes = [(('cls', 'Inner'), good), (('seq', 'list', ('cls', 'Inner')), ('q', [good, good], None)),
+                      (('cls', 'Holder'), ('m', [(S('n'), S('2')), (S('x'), good)], None)),
+                      (('map', 'dict', ('str',), ('cls', 'Inner')), ('m', [(S('k'), good)], None))]
+            if kind != 'plain':
+                shapes.append((('map', 'dict', ('cls', 'Inner'), ('int',)), ('m', [(good, S('1'))], None)))
+            for t, doc in shapes:
+                try:
+                    c = L.build_case(rng, yaml, yatiml, [inner, holder], t, doc, ('directed-hook-failure',))
+                    c.text = '\n'.join(block(doc)) + '\n'
+                    L.run_case(c, yaml)
+                except Exception as e:  # noqa
+                    ctx.count('gen_error:' + type(e).__name__)
+                    continue
+                ctx.count('directed_hook_failures')
+                yield c
+
+
+def directed_one_or_many(ctx):
+    """a fixed grid: attributes that take one value or a (nested) collection of them, a valid block
+    document, and one wrong scalar at an element that is NOT the first of its collection"""
+    yaml, yatiml = L.setup()
+    rng = ctx.rng
+    S = G.S
+    P = lambda nm, t, **kw: dict(name=nm, type=t, **kw)   # noqa: E731
+    for T, good, bad in ((('int',), ['1', '2', '3'], 'zzz'), (('str',), ['p', 'q', 'r'], '12'),
+                         (('float',), ['1.5', '2.5', '0.5'], 'x'), (('bool',), ['true', 'false', 'true'], '7')):
+        lst = ('seq', 'list', T)
+        deep = ('map', 'dict', ('str',), ('map', 'dict', ('str',), T))
+        dl = ('map', 'dict', ('str',), ('seq', 'list', T))
+        ps = [P('vals', ('union', [T, lst])), P('deep', ('union', [T, deep])), P('lists', ('union', [dl, T])),
+              P('plain', lst), P('n', ('int',))]
+        holder = dict(name='Holder', bases=[], registered=True, kind='plain', params=ps, all_params=ps,
+                      extra=False, abstract=None, define_init=True)
+        g = [S(x) for x in good]
+        doc = ('m', [(S('vals'), ('q', list(g), None)),
+                     (S('deep'), ('m', [(S('a'), ('m', [(S('x'), g[0]), (S('y'), g[1])], None)),
+                                        (S('b'), ('m', [(S('z'), g[2])], None))], None)),
+                     (S('lists'), ('m', [(S('k1'), ('q', list(g), None)), (S('k2'), ('q', g[:2], None))], None)),
+                     (S('plain'), ('q', list(g), None)), (S('n'), S('5'))], None)
+        places = [(0, 1, 1), (0, 1, 2), (1, 1, 0, 1, 1, 1), (1, 1, 1, 1, 0, 1), (2, 1, 0, 1, 2), (2, 1, 1, 1, 1),
+                  (3, 1, 1), (3, 1, 2)]
+        for path in places:
+            try:
+                c = L.build_case(rng, yaml, yatiml, [holder], ('cls', 'Holder'), doc, ('directed-one-or-many',))
+                L.run_case(c, yaml)
+            except Exception as e:  # noqa
+                ctx.count('gen_error:' + type(e).__name__)
+                continue
+            c.forced = (G.replace_at(doc, path, lambda d: S(bad)), ('scalar', path, path), None)
+            ctx.count('directed_one_or_many')
+            yield c
+
+
 def explore(ctx):
     yaml, yatiml = L.setup()
     rng = ctx.rng
     cases = LC.CaseBuffer(ctx)
     # weak claim on arbitrary models: at least one position, all inside the document
-    for c in LC.gen_cases(ctx, ctx.budget(300, 6000), mutate_p=0.7, prop='C17'):
+    import itertools
+    for c in itertools.chain(LC.gen_cases(ctx, ctx.budget(300, 6000), mutate_p=0.7, prop='C17'),
+                             directed_hook_failures(ctx)):
         cases.append(c)
         if c.real_out[0] == 'rec':
             marks, names = G.parse_error(c.real_out[1])
@@ -209,8 +284,11 @@ def explore(ctx):
             del closed
     # strong claim: hierarchy-free models, block style, one corruption
     n = 0
-    for c in LC.gen_cases(ctx, ctx.budget(500, 10000), mutate_p=0.0, model_filter=hierarchy_free, alias_p=0):
+    for c in itertools.chain(LC.gen_cases(ctx, ctx.budget(500, 10000), mutate_p=0.0, model_filter=hierarchy_free,
+                                          alias_p=0), directed_one_or_many(ctx)):
         if c.doc is None or c.real_out[0] != 'ok':
+            if getattr(c, 'forced', None):
+                ctx.count('directed_base_not_ok')
             continue
         text = '\n'.join(block(c.doc)) + '\n'
         try:
@@ -220,7 +298,7 @@ def explore(ctx):
         if base[0] != 'ok' or CM.val_sexp(base[1], c.model) != CM.val_sexp(c.real_out[1], c.model):
             ctx.count('block_render_differs')
             continue
-        cor = corrupt(rng, c.spec, c.doc, c.doc_type)
+        cor = getattr(c, 'forced', None) or corrupt(rng, c.spec, c.doc, c.doc_type)
         if cor is None:
             continue
         doc2, (kind, path, mpath), keyname = cor
